@@ -56,7 +56,7 @@ def walk(state, parent=None, depth=1, out=None):
         kind = 'compound' if 'states' in state else ('orthogonal' if 'parallel states' in state else 'basic')
     out.append((state, parent, kind))
     for k in ('states', 'parallel states'):
-        for c in state.get(k, []):
+        for c in (state.get(k) or []):
             walk(c, state, depth + 1, out)
     return out
 
@@ -83,6 +83,7 @@ def fault_list(doc):
             out.append(('duplicate-state-name', n, lambda d, get=get, o=others[(i * 7) % len(others)]: get(d).__setitem__('name', o)))
         out.append(('missing-name', n, lambda d, get=get: get(d).pop('name')))
         out.append(('unknown-state-key', n, lambda d, get=get: get(d).__setitem__('colour', 'red')))
+        out.append(('unknown-state-key-without-value', n, lambda d, get=get: get(d).__setitem__('colour', None)))
         out.append(('unknown-type', n, lambda d, get=get: get(d).__setitem__('type', 'choice')))
         if kind in ('final', 'history'):
             out.append(('transition-on-%s-state' % kind, n, lambda d, get=get, tgt=names[0]: get(d).__setitem__('transitions', [{'target': tgt, 'event': 'ea'}])))
@@ -105,6 +106,7 @@ def fault_list(doc):
             out.append(('deep-history-under-orthogonal', n, lambda d, get=get: get(d)['parallel states'].append(
                 {'name': 'HISTX', 'type': 'deep history'})))
             out.append(('both-states-and-parallel-states', n, lambda d, get=get: get(d).__setitem__('states', [{'name': 'EXTRAX'}])))
+            out.append(('both-states-and-parallel-states-the-former-without-value', n, lambda d, get=get: get(d).__setitem__('states', None)))
         if kind == 'compound':
             out.append(('both-states-and-parallel-states', n, lambda d, get=get: get(d).__setitem__('parallel states', [{'name': 'EXTRAX'}])))
             out.append(('initial-unknown', n, lambda d, get=get: get(d).__setitem__('initial', 'NOSUCH')))
@@ -128,6 +130,7 @@ def fault_list(doc):
             out.append(('dangling-target', lab, lambda d, get=get, j=j: get(d)['transitions'][j].__setitem__('target', 'NOSUCH')))
             out.append(('dangling-target-empty-name', lab, lambda d, get=get, j=j: get(d)['transitions'][j].__setitem__('target', '')))
             out.append(('unknown-transition-key', lab, lambda d, get=get, j=j: get(d)['transitions'][j].__setitem__('delay', 3)))
+            out.append(('unknown-transition-key-without-value', lab, lambda d, get=get, j=j: get(d)['transitions'][j].__setitem__('delay', None)))
             out.append(('unknown-priority', lab, lambda d, get=get, j=j: get(d)['transitions'][j].__setitem__('priority', 'urgent')))
             for k, c in enumerate(t.get('contract', [])):
                 out.append(('unknown-contract-key', lab + '/c%d' % k, lambda d, get=get, j=j, k=k: get(d)['transitions'][j]['contract'].__setitem__(k, {'sometimes': 'True'})))
@@ -138,6 +141,8 @@ def fault_list(doc):
         'root state', {'name': 'HROOT', 'type': 'shallow history', 'states': [{'name': 'LEFTX'}]})))
     out.append(('deep-history-as-root', '-', lambda d: d['statechart'].__setitem__('root state', {'name': 'HROOT', 'type': 'deep history'})))
     out.append(('unknown-statechart-key', '-', lambda d: d['statechart'].__setitem__('version', 2)))
+    out.append(('unknown-statechart-key-without-value', '-', lambda d: d['statechart'].__setitem__('version', None)))
+    out.append(('unknown-top-key-without-value', '-', lambda d: d.__setitem__('extra', None)))
     out.append(('unknown-top-key', '-', lambda d: d.__setitem__('extra', 1)))
     out.append(('missing-statechart-name', '-', lambda d: d['statechart'].pop('name')))
     out.append(('missing-root-state', '-', lambda d: d['statechart'].pop('root state')))
